@@ -16,4 +16,5 @@ CONSTANTS
   Junk = 34
   EmitOn = TRUE
 INVARIANTS ResumeEqFresh Idempotent OffsSane Emit
+PROPERTY MonotoneCont
 CHECK_DEADLOCK FALSE
